@@ -6,7 +6,8 @@ the other paths must stay restorable, untracked targets must end as private writ
 from . import repo as R, repoext as X
 
 THEOREMS = ["remove_respects_referrers", "others_stay_restorable", "untrack_materialises",
-            "untrack_hardlink_refuted", "untrack_missing_panics_refuted"]
+            "untrack_hardlink_refuted", "untrack_missing_panics_refuted",
+            "remove_keeps_directories_readonly", "untrack_keeps_directories_readonly", "removal_leaves_directory_writable_refuted"]
 
 
 def referrers(prev, addr):
